@@ -4,7 +4,7 @@ Model of the epistemic projection of `anda_cognitive_nexus`
 (rs/anda_cognitive_nexus/src/projection/mod.rs and projection/policy.rs).
 
 What is mirrored, in the order the code runs it:
-* `eligible` – stage 4 lifecycle (`status`, then `state`), stage 5 validity window, stage 6 mode
+* `eligible` – (its tables and comparison operators are the generated ones) stage 4 lifecycle (`status`, then `state`), stage 5 validity window, stage 6 mode
   admission, the `anonymous:{id}` actor of an unattributed Assertion, the replacement of an
   unstated (negative) confidence by `policy.unstated_confidence`;
 * `collect_candidates` – the ledger pushes of the target's Assertions (support / reject / anything
@@ -145,12 +145,77 @@ def Policy.admits (p : Policy) : Option Mode → Bool
   | none => false
   | some m => p.modes.contains m
 
-/-- `Policy::mode_exclusion`. -/
-def modeExclusion : Option Mode → Reason
-  | some .hypothetical => .hypotheticalNotRequested
-  | some .predicted => .predictionNotRequested
-  | none => .invalidSchema
-  | _ => .policyExcluded
+-- ------------------------------------------------------------------------------------------
+-- the eligibility tables, taken from the generated file (regenerated from mod.rs / policy.rs)
+-- ------------------------------------------------------------------------------------------
+
+/-- The code's reason strings. -/
+def Reason.ofName : String → Option Reason
+  | "retracted" => some .retracted
+  | "superseded" => some .superseded
+  | "expired" => some .expired
+  | "invalid_schema" => some .invalidSchema
+  | "not_visible" => some .notVisible
+  | "outside_valid_time" => some .outsideValidTime
+  | "hypothetical_not_requested" => some .hypotheticalNotRequested
+  | "prediction_not_requested" => some .predictionNotRequested
+  | "policy_excluded" => some .policyExcluded
+  | _ => none
+
+/-- `row.status` as the string the code matches on (`other` = a string no arm names). -/
+def Status.name : Status → String
+  | .active => "active" | .retracted => "retracted" | .superseded => "superseded"
+  | .expired => "expired" | .other => "?"
+
+def Mode.name : Mode → String
+  | .observed => "observed" | .stated => "stated" | .inferred => "inferred"
+  | .predicted => "predicted" | .hypothetical => "hypothetical" | .imported => "imported"
+
+/-- A `match` on string literals with a catch-all arm `_`, as a table lookup. -/
+def lookupArm (table : List (String × String)) (key : String) : String :=
+  match table.find? (fun p => p.1 == key) with
+  | some p => p.2
+  | none =>
+    match table.find? (fun p => p.1 == "_") with
+    | some p => p.2
+    | none => ""
+
+/-- Stage 4 of `eligible`, lifecycle: the generated `statusArms` table (`""` = passes). -/
+def lifecycleExclusion (st : Status) : Option Reason :=
+  let name := lookupArm Gen.BeliefPolicy.statusArms st.name
+  if name == "" then none else some ((Reason.ofName name).getD .invalidSchema)
+
+/-- A comparison operator of the source, on instants. -/
+def evalCmp (op : String) (a b : Nat) : Bool :=
+  if op == ">" then decide (b < a)
+  else if op == ">=" then decide (b ≤ a)
+  else if op == "<" then decide (a < b)
+  else if op == "<=" then decide (a ≤ b)
+  else false
+
+/-- Stage 5: `row.valid_from <op> at` with the generated operator. -/
+def notYetValid (validFrom now : Nat) : Bool := evalCmp Gen.BeliefPolicy.validFromExcludedWhen validFrom now
+
+/-- Stage 5: `row.valid_until <op> at` with the generated operator. -/
+def noLongerValid (validUntil now : Nat) : Bool := evalCmp Gen.BeliefPolicy.validUntilExcludedWhen validUntil now
+
+def windowReason : Reason :=
+  match Gen.BeliefPolicy.windowReasons with
+  | [name] => (Reason.ofName name).getD .outsideValidTime
+  | _ => .outsideValidTime
+
+def notVisibleReason : Reason := (Reason.ofName Gen.BeliefPolicy.notVisibleReason).getD .notVisible
+
+/-- `row.confidence <op> 0.0`: the actor stated no confidence. -/
+def isUnstated (c : Int) : Bool :=
+  if Gen.BeliefPolicy.unstatedWhenConfidence == "< 0" then decide (c < 0)
+  else if Gen.BeliefPolicy.unstatedWhenConfidence == "<= 0" then decide (c ≤ 0)
+  else false
+
+/-- `Policy::mode_exclusion`: the generated table. -/
+def modeExclusion (m : Option Mode) : Reason :=
+  let key := match m with | none => "none" | some m => m.name
+  (Reason.ofName (lookupArm Gen.BeliefPolicy.modeExclusion key)).getD .policyExcluded
 
 -- ------------------------------------------------------------------------------------------
 -- `Policy::from_settings`
@@ -244,24 +309,23 @@ structure Cand where
   opposes : Bool
   deriving Repr
 
-/-- `Context::eligible`. -/
+/-- `Context::eligible`, stage by stage in the generated order
+(`eligibleStageOrder = [status, state, valid_from, valid_until, mode, unstated]`), each stage driven
+by its generated table / operator. -/
 def eligible (pol : Policy) (now : Nat) (r : Row) : Except Reason Cand :=
-  match r.status with
-  | .retracted => .error .retracted
-  | .superseded => .error .superseded
-  | .expired => .error .expired
-  | .other => .error .invalidSchema
-  | .active =>
-    if !r.visible then .error .notVisible
-    else if (match r.validFrom with | some f => decide (now < f) | none => false) then .error .outsideValidTime
-    else if (match r.validUntil with | some u => decide (u ≤ now) | none => false) then .error .outsideValidTime
+  match lifecycleExclusion r.status with
+  | some reason => .error reason
+  | none =>
+    if !r.visible then .error notVisibleReason
+    else if (match r.validFrom with | some f => notYetValid f now | none => false) then .error windowReason
+    else if (match r.validUntil with | some u => noLongerValid u now | none => false) then .error windowReason
     else if !pol.admits r.mode then .error (modeExclusion r.mode)
     else .ok {
       id := r.id
       actor := match r.actor with | some a => .actor a | none => .anon r.id
       evidence := r.evidence
       stance := r.stance
-      conf := if r.conf < 0 then pol.unstated else r.conf
+      conf := if isUnstated r.conf then pol.unstated else r.conf
       opposes := false }
 
 -- ------------------------------------------------------------------------------------------
@@ -451,5 +515,23 @@ def project (pol : Policy) (now : Nat) (rows : List Row) (functional : Bool) (sl
 def projectSlot (pol : Policy) (now : Nat) (rows : List Row) (functional : Bool) (slot : List Nat) :
     List (Nat × Option Answer) :=
   slot.map (fun p => (p, project pol now rows functional slot p))
+
+/-- What `slot_to_json` adds to the candidate projections: the accepted values (a list on purpose:
+two accepted candidates of a functional slot are a contradiction the caller has to see) and whether
+the slot is contested (more than one accepted value, or some candidate contested). `leading` is a
+maximum over f64 scores and is not modelled. -/
+structure SlotSummary where
+  accepted : List Nat
+  contested : Bool
+  deriving Repr, DecidableEq
+
+def slotSummary (rs : List (Nat × Option Answer)) : SlotSummary :=
+  let accepted := rs.filterMap (fun r => match r.2 with
+    | some a => if a.status = .accepted then some r.1 else none
+    | none => none)
+  { accepted := accepted
+    contested := decide (accepted.length > 1) || rs.any (fun r => match r.2 with
+      | some a => a.status == .contested
+      | none => false) }
 
 end AndaVerif.Belief
